@@ -746,12 +746,14 @@ class BaseProject(object, metaclass=ABCMeta):
         """
         Remove record information on `absence_time_list`.
         """
-        self.product.remove_absence_time_list(self.absence_time_list)
-        self.workflow.remove_absence_time_list(self.absence_time_list)
-        self.organization.remove_absence_time_list(self.absence_time_list)
+        # a step which is listed twice is still one step
+        absence_time_list = sorted(set(self.absence_time_list))
+        self.product.remove_absence_time_list(absence_time_list)
+        self.workflow.remove_absence_time_list(absence_time_list)
+        self.organization.remove_absence_time_list(absence_time_list)
 
         removed_step_count = 0
-        for step_time in sorted(self.absence_time_list, reverse=True):
+        for step_time in sorted(absence_time_list, reverse=True):
             if step_time < len(self.cost_list):
                 self.cost_list.pop(step_time)
                 removed_step_count += 1
@@ -770,7 +772,10 @@ class BaseProject(object, metaclass=ABCMeta):
         # duplication check
         new_absence_time_list = []
         for time in absence_time_list:
-            if time not in self.absence_time_list:
+            if (
+                time not in self.absence_time_list
+                and time not in new_absence_time_list
+            ):
                 new_absence_time_list.append(time)
 
         self.product.insert_absence_time_list(new_absence_time_list)
